@@ -244,7 +244,9 @@ def bg_correct(raw, bg, df=None):
     pixels = {dim: raw[dim] for dim in ('x', 'y', 'z') if dim in raw.dims}
     bg = bg.assign_coords(pixels)
     df = df.assign_coords(pixels)
-    holo = (raw - df) / zero_filter(bg - df)
+    # (in floating point: unsigned camera counts would wrap around wherever a
+    # pixel is darker than the dark field)
+    holo = (raw.astype(float) - df) / zero_filter(bg.astype(float) - df)
     holo = copy_metadata(raw, holo)
 
     if hasattr(holo, 'noise_sd') and hasattr(bg, 'noise_sd') and holo.noise_sd is None:
